@@ -232,4 +232,125 @@ def logRule (n : Nat) (s : IState) : Outcome :=
         else memAccessO s2 off len fun s3 => logEmit n s3 rest (load (memOf s3) off len)
     | _ => .halt .StackUnderflow [] (adv s)
 
+/-! ## (e) instructions that read or change the state through the host: the gas is a function of the answer
+
+The fork `f` of the cost formulas is a parameter; the theorems assume `s.spec = f.id`. -/
+
+/-- the low 160 bits of a word -/
+def addrOf (w : Nat) : Nat := w % 2 ^ 160
+
+/-- the refund counter over unbounded integers -/
+def addRefund (s : IState) (r : Int) : IState := { s with gas := { s.gas with refunded := s.gas.refunded + r } }
+
+/-- BALANCE: 20, EIP-150: 400, EIP-1884: 700, EIP-2929: cold 2600 / warm 100 -/
+def balanceCost (f : Fork) (cold : Bool) : Nat :=
+  if f.hasEIP2929 then (if cold then 2600 else 100) else if f.hasEIP2200 then 700 else if f.hasEIP150 then 400 else 20
+
+/-- EXTCODEHASH (EIP-1052): 400, EIP-1884: 700, EIP-2929: cold 2600 / warm 100 -/
+def extcodehashCost (f : Fork) (cold : Bool) : Nat :=
+  if f.hasEIP2929 then (if cold then 2600 else 100) else if f.hasEIP2200 then 700 else 400
+
+/-- BALANCE / EXTCODESIZE / EXTCODEHASH: δ = 1, α = 1; the address is asked about first, the price depends on the
+answer's cold flag, a host failure is `FatalExternalError` -/
+def accountQueryRule (op : Nat → HostOp) (price : Bool → Nat) (value : HostResp → Nat) (s : IState) : Outcome :=
+  match s.stack.reverse with
+  | a :: rest =>
+    let s1 := { adv s with stack := rest.reverse }
+    .host (op (addrOf a)) fun r =>
+      if !r.ok then .halt .FatalExternalError [] s1
+      else needGas s1 (price r.isCold) fun s2 => .next { s2 with stack := (value r :: rest).reverse }
+  | [] => .halt .StackUnderflow [] (adv s)
+
+def balanceRule (f : Fork) (s : IState) : Outcome := accountQueryRule .balance (balanceCost f) (·.word) s
+def extcodesizeRule (f : Fork) (s : IState) : Outcome :=
+  accountQueryRule .code (Spec.GasCalc.accountAccess f 20) (·.bytes.length) s
+def extcodehashRule (f : Fork) (s : IState) : Outcome :=
+  if !enabled s.spec GasCalc.SpecId.CONSTANTINOPLE then .halt .NotActivated [] (adv s)
+  else accountQueryRule .codeHash (extcodehashCost f) (·.word) s
+
+/-- SELFBALANCE (EIP-1884, Istanbul): `G_low`, the balance of the executing account -/
+def selfbalanceRule (s : IState) : Outcome :=
+  if !enabled s.spec GasCalc.SpecId.ISTANBUL then .halt .NotActivated [] (adv s)
+  else needGasO (adv s) GasCalc.LOW fun s1 =>
+    .host (.balance s.target) fun r =>
+      if !r.ok then .halt .FatalExternalError [] s1
+      else if s.stack.length = 1024 then .halt .StackOverflow [] s1
+      else .next { s1 with stack := s.stack ++ [r.word] }
+
+/-- BLOCKHASH: `G_blockhash = 20`; the host is asked for the number saturated to 64 bits -/
+def blockhashRule (s : IState) : Outcome :=
+  needGasO (adv s) GasCalc.BLOCKHASH fun s1 =>
+    match s.stack.reverse with
+    | n :: rest =>
+      .host (.blockHash (min n (U64 - 1))) fun r =>
+        if !r.ok then .halt .FatalExternalError [] s1
+        else .next { s1 with stack := (r.word :: rest).reverse }
+    | [] => .halt .StackUnderflow [] s1
+
+/-- EXTCODECOPY: δ = 4; account access + `G_copy · ⌈len / 32⌉` + expansion, all after the host answered; the
+address is popped before the other three operands are checked -/
+def extcodecopyRule (f : Fork) (s : IState) : Outcome :=
+  match s.stack.reverse with
+  | a :: memOff :: codeOff :: len :: rest =>
+    let s1 := { adv s with stack := rest.reverse }
+    .host (.code (addrOf a)) fun r =>
+      if !r.ok then .halt .FatalExternalError [] s1
+      else if U64 ≤ len then .halt .InvalidOperandOOG [] s1
+      else needGas s1 (Spec.GasCalc.extcodecopyCost f len r.isCold) fun s2 =>
+        if len = 0 then .next s2
+        else if U64 ≤ memOff then .halt .InvalidOperandOOG [] s2
+        else memAccess s2 memOff len fun s3 =>
+          .next (setMem s3 (store (memOf s3) memOff (Spec.Memory.paddedSlice r.bytes codeOff len)))
+  | _ :: rest => .halt .StackUnderflow [] { adv s with stack := rest.reverse }
+  | [] => .halt .StackUnderflow [] (adv s)
+
+/-- SSTORE: δ = 2; static context first; the host stores and answers (original, present, new, cold); the price is the
+EIP-2200 / 2929 table of the value pattern (`none`: the 2300-gas sentry), then the refund of EIP-2200 / 3529 -/
+def sstoreRule (f : Fork) (s : IState) : Outcome :=
+  if s.isStatic then .halt .StateChangeDuringStaticCall [] (adv s)
+  else match s.stack.reverse with
+    | key :: v :: rest =>
+      let s1 := { adv s with stack := rest.reverse }
+      .host (.sstore s.target key v) fun r =>
+        if !r.ok then .halt .FatalExternalError [] s1
+        else
+          let pat := Spec.GasCalc.classify r.original r.present r.new
+          match Spec.GasCalc.sstoreCost f pat s1.gas.remaining r.isCold with
+          | none => .halt .OutOfGas [] s1
+          | some c => needGas s1 c fun s2 => .next (addRefund s2 (Spec.GasCalc.sstoreRefund f pat))
+    | _ => .halt .StackUnderflow [] (adv s)
+
+/-- TSTORE (EIP-1153, Cancun): 100 gas, forbidden in a static context -/
+def tstoreRule (s : IState) : Outcome :=
+  if !enabled s.spec GasCalc.SpecId.CANCUN then .halt .NotActivated [] (adv s)
+  else if s.isStatic then .halt .StateChangeDuringStaticCall [] (adv s)
+  else needGasO (adv s) GasCalc.WARM_STORAGE_READ_COST fun s1 =>
+    match s.stack.reverse with
+    | key :: v :: rest =>
+      .host (.tstore s.target key v) fun _ => .next { s1 with stack := rest.reverse }
+    | _ => .halt .StackUnderflow [] s1
+
+/-- SELFDESTRUCT: δ = 1; static context first; the host moves the balance and answers (had value, target exists,
+previously destroyed, cold); before EIP-3529 a first destruction earns the 24000 refund (recorded before the charge);
+price per EIP-150 / 161 / 2929; the frame ends with `SelfDestruct` -/
+def selfdestructRule (f : Fork) (s : IState) : Outcome :=
+  if s.isStatic then .halt .StateChangeDuringStaticCall [] (adv s)
+  else match s.stack.reverse with
+    | t :: rest =>
+      let s1 := { adv s with stack := rest.reverse }
+      .host (.selfdestruct s.target (addrOf t)) fun r =>
+        if !r.ok then .halt .FatalExternalError [] s1
+        else
+          let s2 := if !f.hasEIP3529 && !r.previouslyDestroyed then addRefund s1 24000 else s1
+          needGas s2 (Spec.GasCalc.selfdestructCost f r.hadValue r.targetExists r.isCold) fun s3 =>
+            .halt .SelfDestruct [] s3
+    | [] => .halt .StackUnderflow [] (adv s)
+
+/-- two outcomes agree for every host answer satisfying `P`: the same pure result, or the same question and the same
+continuation on those answers -/
+def AgreeOn (P : HostResp → Prop) : Outcome → Outcome → Prop
+  | .pure d, .pure d' => d = d'
+  | .host op k, .host op' k' => op = op' ∧ ∀ r, P r → k r = k' r
+  | _, _ => False
+
 end Revm.Spec.EvmRules2
